@@ -212,7 +212,10 @@ def table(full=True):
     for name, tmpl, ok in FUNC_POSITIONS:
         for ty in ALL:
             for e in (OFFERED[ty] if full else OFFERED[ty][:1]):
-                yield dict(name=name, ctx="funcdef", offered=ty, expr=e, src=PRELUDE + tmpl.replace("{X}", e) + "\n", expect=ty in ok)
+                expect = ty in ok
+                if e.startswith("(") and ty in ("none", "multi"):
+                    expect = False                  # a bracketed call is not a call (see above)
+                yield dict(name=name, ctx="funcdef", offered=ty, expr=e, src=PRELUDE + tmpl.replace("{X}", e) + "\n", expect=expect)
     for name, tmpl, ok in VARIABLE_POSITIONS:
         for ty, v in VARS.items():
             for ctx in CONTEXTS:
